@@ -495,10 +495,14 @@ func TestC13(t *testing.T) {
 			// every value was changed while its timestamp stayed the same
 			var scrape func() ([]byte, string)
 			var stop func()
+			// the exporter's own context: cancelled at shutdown, while scrapes
+			// may still arrive (grace period); what it exports must not change
+			ectx, ecancel := context.WithCancel(context.Background())
+			defer ecancel()
 			switch path {
 			case "handler":
 				empty := metrics.NewStore()
-				e, err := exporter.New(context.Background(), empty, opts...)
+				e, err := exporter.New(ectx, empty, opts...)
 				if err != nil {
 					t.Error(err)
 					return
@@ -523,7 +527,7 @@ func TestC13(t *testing.T) {
 				}
 				stop = e.Stop
 			case "write":
-				e, err := exporter.New(context.Background(), st, opts...)
+				e, err := exporter.New(ectx, st, opts...)
 				if err != nil {
 					t.Error(err)
 					return
@@ -543,6 +547,10 @@ func TestC13(t *testing.T) {
 			}
 			if what == "" {
 				s2 := bump(st, s)
+				if i%5 == 0 {
+					ecancel()
+					r.Count("second_scrapes_after_exporter_context_cancelled", 1)
+				}
 				text, what = scrape()
 				if what == "" {
 					what = check(text, expected(s2))
